@@ -3,6 +3,7 @@ use super::PropDef;
 use crate::engine::{hash_of, CaseFn, Ctx, Run, Src, Tier};
 use crate::refmodel::geom::{Affine, Orient, P};
 use layout21raw as raw;
+use layout21utils::Ptr;
 use raw::{Point, Transform};
 
 pub fn def() -> PropDef {
@@ -307,6 +308,67 @@ fn general_case(src: &mut Src, ctx: &mut Ctx) -> Result<(), String> {
     Ok(())
 }
 
+// ---- (f) general angles through Layout::flatten ----------------------------------------------------------------
+/// A chain of cells, each instantiating the one below at a general angle: flattening the top cell must
+/// put every point of the leaf's polygon within half a unit of its exact image under the composed map
+/// (the composition is evaluated once; rounding at every level would drift).
+fn general_flatten_case(src: &mut Src, ctx: &mut Ctx) -> Result<(), String> {
+    let depth = src.usize_in(1, 4);
+    let pts: Vec<P> = (0..src.usize_in(3, 6)).map(|_| (src.signed(20_000), src.signed(20_000))).collect();
+    let mut cells: Vec<Ptr<raw::Cell>> = vec![];
+    let mut leaf = raw::Layout { name: "g0".into(), ..Default::default() };
+    let layers = Ptr::new(raw::Layers::default());
+    let key = layers.write().unwrap().add(raw::Layer::from_pairs(1, &[(0, raw::LayerPurpose::Drawing)]).map_err(|e| format!("{:?}", e))?);
+    leaf.elems.push(raw::Element { net: None, layer: key, purpose: raw::LayerPurpose::Drawing, inner: raw::Shape::Polygon(raw::Polygon { points: pts.iter().map(|p| pt(*p)).collect() }) });
+    cells.push(Ptr::new(raw::Cell::from(leaf)));
+    // reference: compose in f64, outermost placement first
+    let mut levels = vec![];
+    for k in 1..=depth {
+        let angle = match src.weighted(&[3, 1]) {
+            0 => 0.25 * src.below(1440) as f64,
+            _ => *src.pick(&[30.0, 45.0, 60.0, 135.0, 33.3, 90.0, 270.0]),
+        };
+        let refl = src.bool();
+        let loc = (src.signed(50_000), src.signed(50_000));
+        levels.push((angle, refl, loc));
+        let mut lay = raw::Layout { name: format!("g{}", k), ..Default::default() };
+        lay.insts.push(raw::Instance { inst_name: "i".into(), cell: cells[k - 1].clone(), loc: pt(loc), reflect_vert: refl, angle: Some(angle) });
+        cells.push(Ptr::new(raw::Cell::from(lay)));
+    }
+    ctx.nontrivial(hash_of(&format!("{:?}{:?}", levels, pts)));
+    ctx.label(&format!("general-angle hierarchy of depth {}", depth));
+    ctx.sample("general-angle hierarchy", || format!("polygon {:?} under placements (innermost first) {:?}", pts, levels));
+    let top = cells.last().unwrap().read().unwrap();
+    let flat = top.layout.as_ref().unwrap().flatten().map_err(|e| format!("flatten failed: {:?}", e))?;
+    if flat.len() != 1 {
+        return Err(format!("flatten returned {} shapes for a hierarchy holding one polygon", flat.len()));
+    }
+    let got: Vec<P> = match &flat[0].inner {
+        raw::Shape::Polygon(p) => p.points.iter().map(|q| tp(q.clone())).collect(),
+        other => return Err(format!("flatten turned the polygon into {:?}", other)),
+    };
+    if got.len() != pts.len() {
+        return Err(format!("flatten returned {} points for a polygon of {}", got.len(), pts.len()));
+    }
+    for (i, p) in pts.iter().enumerate() {
+        // innermost placement applies first
+        let (mut x, mut y) = (p.0 as f64, p.1 as f64);
+        for (angle, refl, loc) in &levels {
+            if *refl {
+                y = -y;
+            }
+            let (s, c) = (angle.to_radians().sin(), angle.to_radians().cos());
+            let (nx, ny) = (c * x - s * y, s * x + c * y);
+            x = nx + loc.0 as f64;
+            y = ny + loc.1 as f64;
+        }
+        if (got[i].0 as f64 - x).abs() > 0.5 + 1e-6 || (got[i].1 as f64 - y).abs() > 0.5 + 1e-6 {
+            return Err(format!("flatten: polygon point {:?} under placements (innermost first) {:?} lands at {:?}, the real-arithmetic image is ({:.4},{:.4}) (tolerance 0.5)", p, levels, got[i], x, y));
+        }
+    }
+    Ok(())
+}
+
 fn run(run: &mut Run) {
     run.rule("Placement chains over the eight right-angle orientations x 5 offsets per level, every point of a 9x9 grid: depth 1-3 exhaustive in every tier, depth 4 exhaustive in thorough (sampled in quick); random chains with large offsets; random raw cell hierarchies (depth <= 4, rect/polygon/path shapes) through Layout::flatten; general angles against real arithmetic with half-unit tolerance. Non-trivial = chain/hierarchy containing a reflected placement rotated by 90 or 270 degrees; distinct by hash of the chain.");
     run.assume("R-geom integer matrices are the meaning of 'reflect about the x-axis, rotate counter-clockwise, translate'");
@@ -321,6 +383,7 @@ fn run(run: &mut Run) {
     run.explore("random-chains", run.tier.pick(400_000, 4_000_000), 40, &random_chain_case);
     run.explore("flatten", run.tier.pick(250_000, 3_000_000), 400, &flatten_case);
     run.explore("general-angles", run.tier.pick(500_000, 6_000_000), 60, &general_case);
+    run.explore("general-angles-flatten", run.tier.pick(100_000, 1_000_000), 60, &general_flatten_case);
 }
 fn case(sub: &str) -> Option<Box<CaseFn<'static>>> {
     match sub {
@@ -331,6 +394,7 @@ fn case(sub: &str) -> Option<Box<CaseFn<'static>>> {
         "random-chains" => Some(Box::new(random_chain_case)),
         "flatten" => Some(Box::new(flatten_case)),
         "general-angles" => Some(Box::new(general_case)),
+        "general-angles-flatten" => Some(Box::new(general_flatten_case)),
         _ => None,
     }
 }
